@@ -10,6 +10,6 @@ Extraction "walmodel.ml" Byte.of_N Byte.to_N
   encode_recs decode_whole decode_files decode_each
   read_all read_all_dec read_all_w read_all_w_dec verify verify_dec repair_files zero_tail
   crash_image_list set_byte
-  w_run w_run_d completed_ok spec_read_ok second_life_ok kill_prefix_ok spec_run w_files select_files file_bytes
+  w_run w_run_d completed_ok spec_read_ok second_life_ok s_run_d sops_wops spec_read_at_ok kill_prefix_ok spec_run w_files select_files file_bytes
   interp_result prefix_ok rares_eqb locate frame_len count_synced no_crc_coincidence
   snap_file_of snap_read snap_load.
